@@ -28,7 +28,7 @@ def pair_cases(draw, tier):
     ds = draw(gen.datasets(max_n=10 if big else 8, max_m=5))
     a = ds["rankings"]
     mode = draw(st.sampled_from(["equal", "equal", "equal", "moved", "swapped", "split", "merged", "multiplicity",
-                                 "replaced", "independent", "space_name", "comma_name"]))
+                                 "replaced", "independent", "space_name", "comma_name", "normalised", "normalised"]))
     b = [[list(draw(st.permutations(bk))) for bk in r] for r in draw(st.permutations(a))]
     if mode == "moved":
         cand = [(i, j) for i, r in enumerate(b) for j in range(len(r) - 1)]
@@ -67,6 +67,17 @@ def pair_cases(draw, tier):
         b = [[[new if x == e else x for x in bk] for bk in r] for r in b]
     elif mode == "independent":
         b = draw(gen.datasets(max_n=4, max_m=3, kinds=(ds["kind"],)))["rankings"]
+    elif mode == "normalised":
+        # the same rankings written with int names on one side and with the decimal strings of the same ints on the
+        # other (both datasets hold int elements), or with one non-integer name added on both sides (both hold strings)
+        univ = oracle.universe(a)
+        code = {e: i for i, e in enumerate(sorted(univ, key=str))}
+        variant = draw(st.sampled_from(["int_vs_digits", "int_and_name_vs_strings"]))
+        a = [[[code[x] for x in bk] for bk in r] for r in a]
+        b = [[[str(code[x]) for x in bk] for bk in r] for r in b]
+        if variant == "int_and_name_vs_strings":
+            a = a + [[["w"]]]
+            b = b + [[["w"]]]
     elif mode == "space_name":
         a = [[["a b"], ["c"]], [["c", "a b"]]]
         b = [[["ab"], ["c"]], [["c", "ab"]]] if draw(st.booleans()) else [[["a b"], ["c"]], [["a b", "c"]]]
